@@ -3,16 +3,21 @@ block_roundtrip / frame_roundtrip_compressed in Lemmas/BlockRT.lean) to the REAL
 
 The match finder is an oracle for the model: this file plays that oracle.  It generates random inputs x together with random VALID
 parses (tilings of x by raw / RLE / compressed blocks; a compressed block = literal runs + matches against anything earlier in x,
-overlapping matches and repeated offsets included), and the entropy decisions (raw / RLE / Huffman literals; per sequence table LL / OF /
+overlapping matches and repeated offsets included), and the entropy decisions (raw / RLE / Huffman literals with a new table, its tree
+description direct (`h`) or as the whole of HUF_writeCTable_wksp writes it, FSE-compressed when that is smaller (`f`) / TREELESS
+literals = Huffman with the table of the last earlier block of the frame that wrote one (litmode `t`; this file only asks for it when
+every literal of the block occurs among the literals of that earlier block, i.e. has a code in its table; the driver checks the same on
+the actual table and reports in `lit=` what was written); per sequence table LL / OF /
 ML: predefined | RLE | FSE-described with normalised counts made here from the code histogram of the block (`normalise`) | repeat of the
 table of the previous block with sequences, whatever that one was: FSE-described, RLE, predefined or itself a repeat, with raw / RLE
 blocks and compressed blocks without sequences in between).
 Model side (`zvdriver blockenc`, lean/Driver/BlockEnc.lean): op `cframe <windowLog> <checksum> <blocks spec> <hex x>` -> the frame
 bytes of `serializeFrame2`, plus the decoder model on them (rt=ok), plus the spreading side conditions of the round-trip theorems on
-every FSE-described table (`fse=<n> spreadOK=true spreadEncEqDec=true`).
+every FSE-described table (`fse=<n> spreadOK=true spreadEncEqDec=true`), plus the type of every literals section written (`lit=hrt..`).
 Comparisons: (1) the decoder model regenerates x from the model's frame (rt=ok); (2) THE MODEL'S frame, handed to the real
 ZSTD_decompressDCtx (harness/zvh_dec.c `dec`) with exactly len(x) bytes of room, regenerates x (size and XXH64 equal to `xxh x`);
-(3) spreadOK / spreadEncEqDec are true.
+(3) spreadOK / spreadEncEqDec are true; (4) the fixed cases get the literals sections they were built for (`lit=`), and the run as a
+whole does write treeless sections.
 
 Blocks spec (see lean/Driver/BlockEnc.lean): blocks separated by `;`:  r<n> | e<n> | c<litmode>:<LL OF ML modes>:<ll:ml:off,...>:<tail>,
 modes = three letters out of b r p, or three descriptors `b` | `r` | `p` | `f<tableLog>,<c0>,<c1>,...` separated by `/`.
@@ -54,7 +59,7 @@ def fl_size(n):
 def body_bound(nlits, litmode, seqs, tabs=None):
     """upper bound of the size of the compressed block body the model writes for this parse; tabs = the three RESOLVED tables
     (`("b",)` | `("r", sym)` | `("f", log, norm)`) together with the three descriptors, None = predefined / RLE tables"""
-    lit = fl_size(nlits) + (1 if litmode == "e" else nlits)        # `h` is only kept by the driver when smaller than raw
+    lit = fl_size(nlits) + (1 if litmode == "e" else nlits)        # `h` / `t` are only kept by the driver when smaller than raw
     n = len(seqs)
     hdr = 1 if n < 128 else (2 if n < 0x7F00 else 3)
     if n == 0:
@@ -234,7 +239,27 @@ def note_tables(descs, resolved, gap):
 PHRASES = [b"the quick brown fox ", b"hello world ", b"zstd", b"abcabcabd", b"\x00\x00\x01\x00", b"0123456789", b"lorem ipsum dolor sit amet, "]
 
 
+def gen_x_skew(rng):
+    """text-like material: one small alphabet with a geometric distribution for the whole input, so that the literals of later blocks
+    use symbols the Huffman table of an earlier block has codes for (treeless literals)"""
+    n = rng.choice((rng.randint(40, 400), rng.randint(200, 1500), rng.randint(500, 3000), rng.randint(500, 3000), rng.randint(2000, 9000)))
+    top = 129 if rng.random() < 0.9 else 256
+    alpha = rng.sample(range(top), rng.randint(2, 24))
+    rate = rng.choice((0.15, 0.3, 0.6, 1.0))
+    out = bytearray()
+    while len(out) < n:
+        if out and rng.random() < 0.08:                              # a copy, for the match finder
+            src = rng.randrange(len(out))
+            for j in range(rng.randint(3, 60)):
+                out.append(out[src + j])
+        else:
+            out += bytes(alpha[min(len(alpha) - 1, int(rng.expovariate(rate)))] for _ in range(rng.randint(5, 200)))
+    return bytes(out[:n])
+
+
 def gen_x(rng):
+    if rng.random() < 0.3:
+        return gen_x_skew(rng)
     n = rng.choice((rng.randint(1, 12), rng.randint(1, 100), rng.randint(50, 600), rng.randint(50, 600), rng.randint(200, 1500),
                     rng.randint(200, 1500), rng.randint(500, 3000), rng.randint(500, 3000)))
     out = bytearray()
@@ -360,21 +385,37 @@ def spec_of(blocks):
     return ";".join(toks) if toks else "-"
 
 
-def choose_modes(rng, x, s, seqs, tail):
+def choose_modes(rng, x, s, seqs, tail, huf_syms=None):
+    """huf_syms = the literal bytes of the last block asked to write a Huffman table (None: no such block yet): the symbols that table
+    has codes for, if the driver kept the Huffman output"""
     lits, _ = literals_of(x, s, seqs, tail)
-    if lits and len(set(lits)) == 1 and rng.random() < 0.7:
+    r = rng.random()
+    if lits and len(set(lits)) == 1 and r < 0.7:
         lm = "e"
-    elif rng.random() < 0.4:
-        lm = "h"
+    elif lits and huf_syms is not None and set(lits) <= huf_syms and r < 0.75:
+        lm = "t"                                                     # treeless: every literal has a code in the previous table
+    elif r < 0.03:
+        lm = "t"                                                     # not applicable (or only by luck): the driver does what `f` does
+    elif rng.random() < 0.45:
+        lm = rng.choice("hf")                                        # f: the tree description may be FSE-compressed (any symbol values)
     else:
         lm = "r"
     return lm, len(lits)
+
+
+def table_syms(lm, lits, huf_syms):
+    """the estimate of the symbols the current Huffman table covers, behind a block with literal mode lm"""
+    if lm in "hf" or (lm == "t" and not (huf_syms is not None and set(lits) <= huf_syms)):
+        if len(set(lits)) >= 2 and (max(lits) <= 128 or lm != "h"):  # else the driver cannot write a table: raw literals, table unchanged
+            return set(lits)
+    return huf_syms
 
 
 def assign_tables(rng, x, tentative, limit):
     """second pass over the tentative blocks (`("c", None, wish, seqs, tail)` for a compressed one): literal modes, table decisions along
     the frame (repeat-offset history and previous tables advance on compressed blocks only), raw fallback for blocks over `limit`"""
     blocks, pos, rep, prev, gap = [], 0, REP_START, None, 0
+    huf_syms = None                                                  # see choose_modes; advances on compressed blocks only
     for i, b in enumerate(tentative):
         if b[0] != "c":
             blocks.append(b)
@@ -384,9 +425,14 @@ def assign_tables(rng, x, tentative, limit):
         _, lm, wish, seqs, tail = b
         lits, end = literals_of(x, pos, seqs, tail)
         if lm is None:
-            lm, _ = choose_modes(rng, x, pos, seqs, tail)
+            lm, _ = choose_modes(rng, x, pos, seqs, tail, huf_syms)
         if not seqs:
-            blocks.append(("c", lm, "bbb", seqs, tail) if body_bound(len(lits), lm, seqs) <= limit else ("r", end - pos))
+            if body_bound(len(lits), lm, seqs) <= limit:
+                blocks.append(("c", lm, "bbb", seqs, tail))
+                STATS["lit:" + lm] = STATS.get("lit:" + lm, 0) + 1
+                huf_syms = table_syms(lm, lits, huf_syms)
+            else:
+                blocks.append(("r", end - pos))
             pos = end
             gap += 1
             continue
@@ -407,6 +453,8 @@ def assign_tables(rng, x, tentative, limit):
                 continue
         note_tables(descs, resolved, gap)
         blocks.append(("c", lm, descs, seqs, tail))
+        STATS["lit:" + lm] = STATS.get("lit:" + lm, 0) + 1
+        huf_syms = table_syms(lm, lits, huf_syms)
         pos, rep, prev, gap = end, rep2, resolved, 0
     return blocks
 
@@ -453,6 +501,13 @@ def expand(prefix, seqs_with_lits, tail=b""):
         seqs.append((len(lit), ml, off))
     out += tail
     return bytes(out), seqs
+
+
+EXPECT_LIT = {}                                                      # op line -> the `lit=` field the fixed case was built for
+
+
+def skewed(rng, n, alpha, rate=0.7):
+    return bytes(alpha[min(len(alpha) - 1, int(rng.expovariate(rate)))] for _ in range(n))
 
 
 def fixed_cases():
@@ -547,6 +602,50 @@ def fixed_cases():
     add2(10, 1, [("r", 8), ("c", "e", "fff", seqs, 400)], x)
     x, seqs = expand(b"abcdefgh" * 30, [(b"", 20, 8), (b"", 20, 8)], b"z" * 400)
     add2(10, 0, [("r", 240), ("c", "r", "fff", seqs[:1], 0), ("c", "e", "pfp", seqs[1:], 400)], x)
+
+    # ---- treeless literals (litmode t): the Huffman table of an earlier block of the frame is re-used
+    trng = random.Random(20260930)
+    al = b"etaoinsh"
+
+    def add3(wl, ck, tentative, x, want):
+        add2(wl, ck, tentative, x)
+        EXPECT_LIT[ops[-1][0]] = want
+
+    # blocks of literals only; every header form (3 / 4 / 5 bytes), one stream and four streams; an RLE block in between
+    for n1, n2, n3 in ((400, 300, 100), (2000, 1500, 255), (300, 256, 1023), (300, 1024, 16383), (300, 16384, 70000)):
+        x = skewed(trng, n1, al) + b"Q" * 5 + skewed(trng, n2, al[:5]) + skewed(trng, n3, al[:3])
+        add3(17, 1, [("c", "h", "bbb", [], n1), ("e", 5), ("c", "t", "bbb", [], n2), ("c", "t", "bbb", [], n3)], x, "htt")
+    # the table survives raw blocks, RLE blocks and compressed blocks with raw / RLE literals
+    x = skewed(trng, 500, al) + bytes(range(200, 230)) + b"\x07" * 20 + bytes(range(130, 170)) + b"s" * 9 + skewed(trng, 200, al)
+    add3(12, 0, [("c", "h", "bbb", [], 500), ("r", 30), ("e", 20), ("c", "r", "bbb", [], 40), ("c", "e", "bbb", [], 9), ("c", "t", "bbb", [], 200)],
+         x, "hret")
+    # a literal without a code in the table: the driver writes a new table (what `f` does), the next treeless block uses THAT one
+    x = skewed(trng, 400, al[:4]) + skewed(trng, 400, al) + skewed(trng, 300, al[4:])
+    add3(12, 1, [("c", "h", "bbb", [], 400), ("c", "t", "bbb", [], 400), ("c", "t", "bbb", [], 300)], x, "hft")
+    # no table yet: `t` is `f` (or raw)
+    x = skewed(trng, 400, al)
+    add3(12, 1, [("c", "t", "bbb", [], 300), ("c", "t", "bbb", [], 100)], x, "ft")
+    add3(12, 0, [("c", "t", "bbb", [], 8), ("r", 392)], x, "r")
+    # with sequences, together with described and repeated sequence tables
+    pre = skewed(trng, 300, al)
+    steps = [(skewed(trng, trng.randint(0, 30), al), trng.randint(3, 40), trng.randint(1, 300)) for _ in range(60)]
+    x, sq = expand(pre, steps, skewed(trng, 40, al))
+    u, rest = split(sq, 25)
+    v, w = split(rest, 20)
+    for w1, w2, w3 in (("bbb", "bbb", "bbb"), ("fff", "aaa", "aaa"), ("fbf", "afa", "aaa")):
+        add3(13, 1, [("r", 300), ("c", "h", w1, u, 0), ("c", "t", w2, v, 0), ("c", "t", w3, w, 40)], x, "htt")
+
+    # ---- FSE-compressed tree descriptions (litmode f): large alphabets, symbols above 128; then treeless on such a table
+    big = bytes(range(20, 250, 3))                                   # 77 symbols up to 248
+    for n1, n2 in ((3000, 500), (900, 200), (20000, 3000)):
+        x = skewed(trng, n1, big, 0.08) + skewed(trng, n2, big[:30], 0.15)
+        add3(17, 1, [("c", "f", "bbb", [], n1), ("c", "t", "bbb", [], n2)], x, "ft")
+    x = skewed(trng, 2500, bytes(range(256)), 0.03) + bytes(range(10))
+    add3(13, 0, [("c", "f", "bbb", [], 2500), ("r", 10)], x, "f")
+    x = skewed(trng, 600, bytes(range(5))) + bytes(range(10))        # few symbols: the direct form is smaller, `f` writes it
+    add3(13, 0, [("c", "f", "bbb", [], 600), ("r", 10)], x, "h")
+    x = skewed(trng, 3000, bytes(range(0, 120, 2)), 0.1)             # symbols below 128: both forms possible, the FSE one is smaller
+    add3(13, 1, [("c", "f", "bbb", [], 1500), ("c", "h", "bbb", [], 1500)], x, "fh")
     return ops
 
 
@@ -597,12 +696,12 @@ def run(ctx):
     declines, who = [], []
     for (ln, x), a in zip(ops, m):
         parts = a.split(" ")
-        if len(parts) != 5 or parts[1] != "rt=ok":
+        if len(parts) != 6 or parts[1] != "rt=ok" or not parts[5].startswith("lit="):
             bad += 1
             if bad <= 8:
                 ctx.violation("decoder model does not regenerate the input from the block writer model's frame: %s (%s)" % (a[-80:], ln[:80]),
                               dict(kind="tie", correspondence=corr, op=ln, c="", model=a))
-            if len(parts) != 5:
+            if len(parts) != 6:
                 continue
         nfse += int(parts[2].split("=")[1]) if parts[2].startswith("fse=") else 0
         if parts[2] != "fse=%d" % sum(tok.count("f") for tok in [t.split(":")[1] for t in ln.split(" ")[3].split(";") if t.startswith("c")]) \
@@ -611,6 +710,13 @@ def run(ctx):
             if bad <= 8:
                 ctx.violation("block writer model: an FSE-described table misses a side condition of the round-trip theorems (or is not counted): %s (%s)"
                               % (" ".join(parts[2:]), ln[:80]), dict(kind="tie", correspondence=corr, op=ln, c="", model=a[-80:]))
+        written = parts[5][4:]
+        for ch in written.replace("-", ""):
+            STATS["written:" + ch] = STATS.get("written:" + ch, 0) + 1
+        if ln in EXPECT_LIT and written != EXPECT_LIT[ln]:
+            bad += 1
+            ctx.violation("block writer model: literals sections written %s, the fixed case was built for %s (%s)" % (written, EXPECT_LIT[ln], ln[:80]),
+                          dict(kind="tie", correspondence=corr, op=ln, c="", model=a[-80:]))
         declines.append("dec %d %s" % (len(x), parts[0]))
         declines.append("xxh %s" % frames.hx(x))
         who.append((ln, x, a))
@@ -626,6 +732,14 @@ def run(ctx):
             if bad <= 8:
                 ctx.violation("real decoder applied to the frame written by the block writer MODEL does not regenerate the input: %s (expected %s) on %s"
                               % (got, want, ln[:80]), dict(kind="tie", correspondence=corr, op=ln, c=got, model=a))
+    if STATS.get("written:f", 0) < 20:
+        bad += 1
+        ctx.violation("block writer tie: only %d literals sections with an FSE-compressed tree description were written in %d frames"
+                      % (STATS.get("written:f", 0), len(lines)), dict(kind="tie", op="", c="", model=""), no_input=True)
+    if STATS.get("written:t", 0) < 30:
+        bad += 1
+        ctx.violation("block writer tie: only %d treeless literals sections were written in %d frames (the generator no longer reaches them)"
+                      % (STATS.get("written:t", 0), len(lines)), dict(kind="tie", op="", c="", model=""), no_input=True)
     nneg, negbad = run_negative(ctx, exe)
     bad += negbad
     return dict(evaluations=len(lines) * 2 + nneg, mismatches=bad, negative_cases=nneg, frames=len(lines), fse_tables_checked=nfse, table_decisions=dict(sorted(STATS.items())))
